@@ -137,6 +137,7 @@ PROP = Property(
     assumptions=["model and implementation arithmetic are both exact on the k/64 s grid"],
     streams=[
         Stream("model", check, strategy=model_case(), quick=16000, thorough=400000),
+        Stream("reconfigured", lambda case: C.check_reconfigured(case, "C03"), strategy=C.reconfigured_case(PROFILE, ["deadline", "max_attempts", "max_unknown", "per_class"]), quick=3000, thorough=60000),
         Stream("garbage_delay", check_garbage, strategy=garbage_case(), quick=2000, thorough=40000),
     ],
 )
